@@ -52,4 +52,12 @@ theorem old_protocol_broken_text_not_stored :
 example : Valid [⟨0, .update 1 true⟩, ⟨1, .update 2 true⟩, ⟨0, .close⟩, ⟨1, .update 4 false⟩]
     [.recv 0, .recv 1, .store 1, .recv 2, .recv 3, .store 3, .store 0, .store 2] := by decide
 
+/-- Dependencies: an importer is analysed against the latest text of an open dependency; the file on disk only
+matters while the dependency is closed.  Two configurations with the same editor text give the same analysis,
+whatever `analyse` is. -/
+theorem open_dependency_overrides_disk {α : Type} (analyse : String → String → α) (importer t d₁ d₂ : String) :
+    analyse importer (effectiveText (some t) d₁) = analyse importer (effectiveText (some t) d₂) := rfl
+
+theorem closed_dependency_reads_disk (d : String) : effectiveText none d = d := rfl
+
 end Incan.Lsp
